@@ -272,6 +272,20 @@ func genC01(t *rapid.T) c01Case {
 			c.Reqs = append(c.Reqs, hx.Req{Op: "WRITE", N: 33, Seed: 5})
 		}
 	}
+	if c.AllowWrite && rapid.IntRange(0, 5).Draw(t, "empty-root") == 0 {
+		// an empty (or emptied) root: requests that clamp to "/" then name the root itself, whose entry lives outside
+		c.Tree = hx.Dir("")
+		c.Reqs = c.Reqs[:min(len(c.Reqs), 4)]
+		for i, n := 0, rapid.IntRange(1, 5).Draw(t, "rootops"); i < n; i++ {
+			l := fmt.Sprintf("ro%d", i)
+			p := rapid.SampledFrom([]string{"", "/", "/..", "/../..", "..", "/./", "/sub/../..", "//", "/" + c.RootName + "/../.."}).Draw(t, l+"-p")
+			op := rapid.SampledFrom([]string{"RMDIR", "RMDIR", "DELETE", "CREATE", "MKDIR", "STAT", "OPEN_DIR"}).Draw(t, l+"-op")
+			c.Reqs = append(c.Reqs, hx.Req{Op: op, Path: hx.BStr(p)})
+			if op == "CREATE" {
+				c.Reqs = append(c.Reqs, hx.Req{Op: "WRITE", N: 20, Seed: 6})
+			}
+		}
+	}
 	c.TwoWorld = !c.AllowWrite && rapid.IntRange(0, 2).Draw(t, "two_world") == 0
 	return c
 }
@@ -427,6 +441,10 @@ func runC01Once(c c01Case, st *hx.Stats) error {
 		}
 	}
 	defer tg.Close()
+	rootBefore, err := os.Lstat(root)
+	if err != nil {
+		return err
+	}
 	before, err := sentinelSnapshot(outer, c.RootName)
 	if err != nil {
 		return err
@@ -451,6 +469,10 @@ func runC01Once(c c01Case, st *hx.Stats) error {
 	}
 	if d := hx.DiffSnap(before, after, false); d != "" {
 		return hx.Failf("outside-untouched", "objects outside the root changed: %s", d)
+	}
+	// the root's own entry lives in its parent directory, i.e. outside: it must still be the same directory
+	if fi, err := os.Lstat(root); err != nil || !fi.IsDir() || !os.SameFile(fi, rootBefore) {
+		return hx.Failf("outside-untouched", "the root's own entry in its parent directory was removed or replaced (now: %v, err=%v)", fi != nil && fi.IsDir(), err)
 	}
 	if c.TwoWorld && !c.AllowWrite {
 		// metamorphic: the same session with the outside emptied must give the same reply stream
